@@ -496,8 +496,8 @@ class regreg_base(ThumbInstruction):
         return tokens[0].encode()
 
 
-def make_regreg(mnemonic, opcode):
-    rdn = Operand("rdn", LowArmRegister, write=True, read=True)
+def make_regreg(mnemonic, opcode, read_rdn=True):
+    rdn = Operand("rdn", LowArmRegister, write=True, read=read_rdn)
     rm = Operand("rm", LowArmRegister, read=True)
     syntax = Syntax([mnemonic, " ", rdn, ",", rm])
     members = {"syntax": syntax, "rdn": rdn, "rm": rm, "opcode": opcode}
@@ -512,6 +512,7 @@ Lsl = make_regreg("lsl", 0b0100000010)
 Lsr = make_regreg("lsr", 0b0100000011)
 Asr = make_regreg("asr", 0b0100000100)
 Rsb = make_regreg("rsb", 0b0100001001)
+Mvn = make_regreg("mvn", 0b0100001111, read_rdn=False)
 
 
 class Cmp2(ThumbInstruction):
@@ -1147,6 +1148,18 @@ def pattern_shr_u32(context, tree, c0, c1):
 def pattern_neg32(context, tree, c0):
     d = context.new_reg(LowArmRegister)
     context.emit(Rsb(d, c0))
+    return d
+
+
+@thumb_isa.pattern("reg", "INVI32(reg)", size=2)
+@thumb_isa.pattern("reg", "INVU32(reg)", size=2)
+@thumb_isa.pattern("reg", "INVI16(reg)", size=2)
+@thumb_isa.pattern("reg", "INVU16(reg)", size=2)
+@thumb_isa.pattern("reg", "INVI8(reg)", size=2)
+@thumb_isa.pattern("reg", "INVU8(reg)", size=2)
+def pattern_inv32(context, tree, c0):
+    d = context.new_reg(LowArmRegister)
+    context.emit(Mvn(d, c0))
     return d
 
 
